@@ -6,7 +6,7 @@
 EXTENDS Renames, Json, IOUtils, Randomization
 
 CONSTANTS NEin,     \* number of Einsums (prefix of the chain below)
-          KindSeq,  \* exhaustive: kinds of the names, e.g. <<"t">> or <<"t", "r">>
+          KindSeqs, \* exhaustive: set of kind sequences of the names, e.g. {<<"t">>, <<"r">>}
           SrcT,     \* exhaustive: sources of tensor renames
           SrcR,     \* exhaustive: sources of rank-variable renames
           Cnts,     \* exhaustive: expected_count values (-1 = none)
@@ -35,10 +35,8 @@ SR3 == {Nm("m"), Nm("n"), <<"|", Nm("m"), Nm("n")>>}
 SR2 == {Nm("m"), <<"|", Nm("m"), Nm("n")>>}
 CntsNone == {-1}
 Cnts12 == {-1, 1, 2}
-KT == <<"t">>
-KR == <<"r">>
-KTT == <<"t", "t">>
-KTR == <<"t", "r">>
+K1 == {<<"t">>, <<"r">>}
+K2 == {<<"t", "t">>, <<"t", "r">>}
 
 Src(kind) == IF kind = "t" THEN SrcT ELSE SrcR
 Entries(kind, ats) == {[at |-> a, src |-> s, cnt |-> k] : a \in ats, s \in Src(kind), k \in Cnts}
@@ -63,9 +61,10 @@ ASSUME \A ne \in 1..3 : TabOK(Case(ne, <<>>, <<>>, [e \in 1..ne |-> <<>>]))
 (* source and expected_count from the configured sets.                      *)
 ExhInit ==
   /\ n = 0
-  /\ \E d \in SeqProd([k \in 1..Len(KindSeq) |-> DfltOpts(KindSeq[k])]) :
-     \E o \in SeqProd([e \in 1..NEin |-> SeqProd([k \in 1..Len(KindSeq) |-> OwnOpts(KindSeq[k])])]) :
-        /\ c = Case(NEin, KindSeq, d, o)
+  /\ \E kinds \in KindSeqs :
+     \E d \in SeqProd([k \in 1..Len(kinds) |-> DfltOpts(kinds[k])]) :
+     \E o \in SeqProd([e \in 1..NEin |-> SeqProd([k \in 1..Len(kinds) |-> OwnOpts(kinds[k])])]) :
+        /\ c = Case(NEin, kinds, d, o)
         /\ ~Ambiguous(c)
 ExhNext == UNCHANGED vars
 
